@@ -82,7 +82,7 @@ def bit_xor(a, b):
 
 
 class AInt:
-    __slots__ = ('bits', 'signed', 'lo', 'hi', 'kz', 'ko', 'term', 'sym', 'taint', 'negof')
+    __slots__ = ('bits', 'signed', 'lo', 'hi', 'kz', 'ko', 'term', 'sym', 'taint', 'negof', 'prov')
 
     def __init__(self, bits, signed, lo=None, hi=None, kz=0, ko=0, term=None, sym=None, taint=None, negof=None):
         self.bits = bits
@@ -96,6 +96,7 @@ class AInt:
         self.sym = sym
         self.taint = taint
         self.negof = negof   # this value is exactly the two's complement negation of that AInt (same width)
+        self.prov = None     # provenance for branch refinement in may-mode: ('cmp', op, a, b) | ('and', x, mask) | ('shr', x, n) | ('cast', x) | ('not', b) | ('boolop', op, a, b)
         self._reduce()
 
     # ------------------------------------------------------------ helpers
